@@ -40,13 +40,14 @@ claim("C04",
       "Decides the necessary structure of the parity argument: common grid and common index in both optimisation routines, "
       "interpolation / p_ignore / thresholder probability formulas, METRIC_DICT and count tables, operation pairing, "
       "ThresholdOperation semantics."
-      " Also: the threshold sweep (start state, sentinel, thresholds), the dispatch to the two routines and the delegation of predict.",
+      " Also: the threshold sweep (start state, sentinel, thresholds, Python-number element type), the dispatch to the two routines, the "
+      "delegation of predict, row selection by the unconverted table key, no in-place update of a value held under a second name.",
       "Not decided: the tie handling of the hull / interpolation indices on values, floating point; hence not the parity "
       "itself.", GVN + ", D-REGION, event-order queries", "DESIGN.md §4 C04")
 claim("C05",
       "Decides the upper-hull drop test as a polynomial inequality (non-strict), push/pop protocol, frequency-weighted "
       "objective and arg-max, and the equalized-odds count roles and objective."
-      " Also: rounding precision before the arg-max and zero-over-runtime accumulators.",
+      " Also: rounding precision before the arg-max, zero-over-runtime accumulators, Python-number sweep lists, no in-place update of shared counts.",
       "Not decided: optimality against an independent optimiser.", GVN + ", event-order queries", "DESIGN.md §4 C05")
 claim("C06",
       "Static formula conformance of the constraint moments: U matrix columns, P(e), P(e,g), the +/- index, gamma, bound, "
@@ -77,7 +78,8 @@ claim("C10",
       "Decides that both pmfs are [1-p, p] by construction, the mixture is aligned with weights_ by predictor id, predict "
       "is 1*(p >= U) from the seeded generator with p the second column, and values / probabilities handed to choice() "
       "are ordered by the same index."
-      " Also: pmf column layout, one draw per row in the regression branch, the seed passed through ThresholdOptimizer.predict.",
+      " Also: pmf column layout, one draw per row in the regression branch, the seed passed through ThresholdOptimizer.predict, "
+      "the wrapped estimator fitted on a deep copy (clone / deepcopy), never a shallow one.",
       "Not decided: sampling frequencies; p0, p1 in [0,1] on values.", GVN + ", dataflow queries", "DESIGN.md §4 C10")
 claim("C11",
       "Decides the structural premises of the multiplicity law: weight forwarding to the confusion matrix, the degree-0 "
@@ -127,7 +129,7 @@ claim("C19",
       "Decides over all estimator classes: no constructor-parameter write in fit, fit returns self, no history-dependent "
       "existence test / read influencing fit, predict-type methods write no state, no one-shot latch reachable from fit, "
       "reload completeness of every Moment, no un-copied estimator fit, no unpicklable value in stored state."
-      " Also: in-place mutation of containers not created by the current fit, reload independence of the moments, constructors storing their parameters.",
+      " Also: in-place mutation of containers not created by the current fit, reload independence of the moments, constructors storing their parameters, no fit of a shallow copy.",
       "Not decided: bit-equality of refitted models; determinism of wrapped estimators.",
       "life-cycle effect analysis over the event stream (D-LIFE)", "DESIGN.md §4 C19")
 claim("C20",
